@@ -319,6 +319,7 @@ func registerSDK2(P *Program) {
 	P.reg("("+pt+".Subspace).WithKeyTable", func(it *Interp, a []Value) Value { return a[0] })
 	P.reg("("+pt+".Subspace).HasKeyTable", func(it *Interp, a []Value) Value { return true })
 	P.reg("zzverif.Codec", func(it *Interp, a []Value) Value { return blobCodec })
+	P.reg("zzverif.CodecFull", func(it *Interp, a []Value) Value { return blobCodec })
 	P.reg("github.com/cosmos/gogoproto/proto.Clone", func(it *Interp, a []Value) Value {
 		iv, ok := a[0].(*IfaceV)
 		if !ok || iv == nil {
